@@ -95,9 +95,15 @@ Definition on_user (uc : string) (f : dev -> dev) (st : store) : store :=
 Definition find_client (cl : list client) (id : string) : option client :=
   find (fun c => String.eqb (c_id c) id) cl.
 
+(* an EMPTY presented secret never authenticates (ClientBasicAuth and
+   op.AuthorizeClientIDSecret refuse it before asking the storage); otherwise the
+   storage compares it with the registered one *)
+Definition secret_matches (stored presented : string) : bool :=
+  negb (String.eqb presented "") && String.eqb stored presented.
+
 Definition secret_ok (cl : list client) (id sec : string) : bool :=
   match find_client cl id with
-  | Some c => String.eqb (c_secret c) sec
+  | Some c => secret_matches (c_secret c) sec
   | None => false
   end.
 
@@ -122,7 +128,7 @@ Definition legacy_client (cl : list client) (cr : creds) : client + string :=
            match c_auth c with
            | ANone => inl c
            | APkjwt => inr "invalid_client"
-           | _ => if String.eqb (c_secret c) sec then inl c else inr "invalid_client"
+           | _ => if secret_matches (c_secret c) sec then inl c else inr "invalid_client"
            end
        end.
 
